@@ -204,6 +204,8 @@ def san_report(r):
     """None if clean; else a key naming the tool, error class and innermost in-repo frames."""
     err = r.err.decode('latin-1', 'replace') if isinstance(r.err, bytes) else r.err
     kind = None
+    if getattr(r, 'timed_out', False):
+        return None         # killed by the watchdog: a hang is the caller's business, not a crash
     m = re.search(r'ERROR: AddressSanitizer: (\S+)', err)
     if m:
         kind = 'asan:' + m.group(1)
